@@ -37,8 +37,11 @@ def ph_project(det, op, x=None, raised="None"):
 def ph_run(p, script, wrap=None):
     """script: list of ("update", x) | ("reset",) | ("bad", obj)  - obj is handed to update and must be refused"""
     det = ph_make(p)
+    from .core import Neighbour
+    nb = Neighbour(ph_make(p), lambda o, u: o.update(8.0 * u - 2.0), len(script))
     ev = []
     for step in script:
+        nb.step()
         if step[0] == "update":
             x = step[1]
             det.update(wrap(x) if wrap else x)
@@ -83,8 +86,11 @@ def cu_project(det, op, x=None, raised="None", counted=False):
 
 def cu_run(p, script, wrap=None):
     det = cu_make(p)
+    from .core import Neighbour
+    nb = Neighbour(cu_make(p), lambda o, u: o.update(8.0 * u - 2.0), len(script))
     ev = []
     for step in script:
+        nb.step()
         if step[0] == "update":
             x = step[1]
             before = det.total_samples
